@@ -1,8 +1,11 @@
 (** C10 -- loading, verifying and compiling stay consistent over any history of API calls.
-    theories/VmApi.v: implementation state machine (hand-written from lib.rs; tied to the code by
-    the history correspondence of checks/C10.py), abstract specification, refinement. *)
+    theories/VmApi.v: implementation state machine, abstract specification, refinement.  The state machine is tied to the
+    code twice: the effect lists of the state-changing methods are regenerated from lib.rs (coq/gen/ApiFx.v) and running
+    them in program order is proved equal to it (C10_model_is_the_code, theories/ApiFxProofs.v); and checks/C10.py compares
+    it with the real VM kinds on histories of calls. *)
 From Coq Require Import ZArith List Bool.
-From RbpfV Require Import VmApi.
+From RbpfV Require Import VmApi ApiFx ApiFxProofs.
+From RbpfV.gen Require Import ApiFx.
 Import ListNotations.
 Open Scope Z_scope.
 
@@ -29,6 +32,25 @@ Theorem C10_loaded_is_verified : forall a o,
   a_inv prog vf accepts helpers a -> a_inv prog vf accepts helpers (fst (a_step prog vf accepts helpers hadd value compilable a o)).
 Proof. exact (a_inv_step prog vf accepts helpers hadd value compilable). Qed.
 
+(** the hand-written state machine is what lib.rs does: for set_program, set_verifier, register_helper,
+    set_stack_usage_calculator, jit_compile and cranelift_compile of EbpfVmMbuff (to which the other VM kinds delegate, or whose
+    effects they repeat -- checked by the translator), executing the regenerated effects in order, stopping at the first
+    failing step with the state as it is then, gives the state and answer of [i_step] *)
+Theorem C10_model_is_the_code : forall s,
+  (forall p, fx_call prog vf accepts helpers hadd compilable gen_fx_set_program (AProg prog vf p) s
+             = i_step prog vf accepts helpers hadd value compilable s (OSetProgram prog vf p)) /\
+  (forall v, fx_call prog vf accepts helpers hadd compilable gen_fx_set_verifier (AVf prog vf v) s
+             = i_step prog vf accepts helpers hadd value compilable s (OSetVerifier prog vf v)) /\
+  (forall id, fx_call prog vf accepts helpers hadd compilable gen_fx_register_helper (AId prog vf id) s
+             = i_step prog vf accepts helpers hadd value compilable s (ORegisterHelper prog vf id)) /\
+  fx_call prog vf accepts helpers hadd compilable gen_fx_set_stack_usage_calculator (ANone prog vf) s
+    = i_step prog vf accepts helpers hadd value compilable s (OSetCalc prog vf) /\
+  fx_call prog vf accepts helpers hadd compilable gen_fx_jit_compile (ANone prog vf) s
+    = i_step prog vf accepts helpers hadd value compilable s (OJitCompile prog vf) /\
+  fx_call prog vf accepts helpers hadd compilable gen_fx_cranelift_compile (ANone prog vf) s
+    = i_step prog vf accepts helpers hadd value compilable s (OCraneliftCompile prog vf).
+Proof. exact (fx_is_api prog vf accepts helpers hadd value compilable). Qed.
+
 (** executions never change the state *)
 Theorem C10_execution_is_pure : forall a o, o = OExec prog vf \/ o = OExecJit prog vf \/ o = OExecCranelift prog vf ->
   fst (a_step prog vf accepts helpers hadd value compilable a o) = a.
@@ -39,3 +61,4 @@ Print Assumptions C10_refinement.
 Print Assumptions C10_failed_call_is_noop.
 Print Assumptions C10_loaded_is_verified.
 Print Assumptions C10_execution_is_pure.
+Print Assumptions C10_model_is_the_code.
